@@ -72,6 +72,8 @@ def templates(ks):
         for ptxt, outn, pulled in pipes:
             if 'flatten' in ptxt or 'repeat' in ptxt:
                 pulled = outn + 1   # written in the language as a fold with a seed: the seed is an element of the folded stream
+            if 'chunks' in ptxt:
+                pulled = k + 2      # written in the language: a filter over an aggregate of the elements, a seed and an end marker
             for ctxt in ('.to_array()', '.len()', '.last()'):
                 out.append(('pipe%s%s(%d)' % (ptxt, ctxt, k), 'range(%d).to_generator()%s%s' % (k, ptxt, ctxt), 1, 1, 0, outn if outn == pulled else 0, False))
     # a call that is skipped because an argument is an error value is not a call: its body never starts
